@@ -91,6 +91,20 @@ where
                 &new_value,
             );
 
+            // The old value was specified by another query which no longer does so, and the
+            // value is now computed instead. None of the inputs of this execution needs to have
+            // changed for the value to differ from the specified one, so unless the two values
+            // are equal the memo changed in this revision.
+            if matches!(
+                old_memo.header.origin(),
+                crate::zalsa_local::QueryOriginRef::Assigned(_)
+            ) && !old_memo
+                .value()
+                .is_some_and(|old_value| C::values_equal(old_value, &new_value))
+            {
+                completed_query.revisions.changed_at = zalsa.current_revision();
+            }
+
             // Diff the new outputs with the old, to discard any no-longer-emitted
             // outputs and update the tracked struct IDs for seeding the next revision.
             old_memo
